@@ -382,8 +382,21 @@ try:
     from arim.im import das, tfm
     import arim.model as amodel
 
+    _das_count = [0]
+
     def das_case(numpoints, numel, numsamples, cplx):
         tx, rx = arim.ut.fmc(numel)
+        # captures other than the full matrix: one transmitter for every timetrace, a single timetrace, a list whose first
+        # and last timetraces share the transmitter
+        _das_count[0] += 1
+        kind_ = _das_count[0] % 4
+        if kind_ == 1:
+            tx, rx = np.zeros(numel, dtype=int), np.arange(numel)
+        elif kind_ == 2:
+            tx, rx = np.array([numel - 1]), np.array([0])
+        elif kind_ == 3 and numel >= 3:
+            tx, rx = np.array([0, 1, 2, 0]), np.array([1, 1, 0, 2])
+        chk.count(das_capture=["fmc", "one transmitter", "single timetrace", "tx[0] == tx[-1]"][kind_])
         tt = rng.standard_normal((len(tx), numsamples))
         if cplx:
             tt = tt + 1j * rng.standard_normal((len(tx), numsamples))
